@@ -19,11 +19,13 @@ import (
 	"io"
 	"log"
 	"math/big"
+	"net"
 	"os"
 	"strings"
 	"sync/atomic"
 	"time"
 
+	nebula "github.com/slackhq/nebula/cert"
 	"go.step.sm/crypto/jose"
 	"golang.org/x/crypto/ssh"
 
@@ -33,14 +35,10 @@ import (
 	c "verif/harness/common"
 )
 
-type ACMECase struct{}
-
-func (k *ACMECase) run() (string, string) { return "", "" }
-
 func (k *SSHCase) runProv() (string, string, string) { return "", "", "" }
 func genProv(r *c.Rng) *Case                           { return genE2E(r) }
 func cornerProv() []*Case                              { return cornerE2E() }
-func cleanup()                                         {}
+func cleanup()                                         { closeACME() }
 
 // RenewCase is the end-to-end case (sign, then optionally renew / rekey what was issued).
 type RenewCase struct {
@@ -54,6 +52,10 @@ type RenewCase struct {
 	CType    uint32
 	LNB, LNA T // x5c credential window (whole seconds)
 	Renew    bool
+	// Kind "sshext": a certificate signed with the CA's SSH key outside the sign chain (any bounds),
+	// presented for renewal / rekey
+	EVA, EVB     U
+	AllowExpired bool
 }
 
 type envT struct {
@@ -66,6 +68,9 @@ type envT struct {
 	sshPub2             ssh.PublicKey
 	rootPEM             []byte
 	serial              int64
+	nebCA               *nebula.NebulaCertificate
+	nebKey              *ecdsa.PrivateKey
+	nebPEM              []byte
 }
 
 var env *envT
@@ -77,6 +82,14 @@ func mustKey() *ecdsa.PrivateKey {
 		panic(err)
 	}
 	return k
+}
+
+func parsePEMCert(b []byte) (*x509.Certificate, error) {
+	blk, _ := pem.Decode(b)
+	if blk == nil {
+		return nil, fmt.Errorf("no PEM")
+	}
+	return x509.ParseCertificate(blk.Bytes)
 }
 
 func (e *envT) issue(tpl, parent *x509.Certificate, pub crypto.PublicKey, signer crypto.Signer) *x509.Certificate {
@@ -128,6 +141,22 @@ func getEnv() *envT {
 	}
 	e.csr, _ = x509.ParseCertificateRequest(der)
 	e.sshPub2, _ = ssh.NewPublicKey(mustKey().Public())
+	// a Nebula CA (P-256) valid well around every credential the cases generate
+	e.nebKey = mustKey()
+	ecdhKey, err := e.nebKey.ECDH()
+	if err != nil {
+		panic(err)
+	}
+	_, caNet, _ := net.ParseCIDR("10.1.0.0/16")
+	e.nebCA = &nebula.NebulaCertificate{Details: nebula.NebulaCertificateDetails{Name: "verif nebula CA", Ips: []*net.IPNet{caNet},
+		Subnets: []*net.IPNet{}, Groups: []string{}, NotBefore: time.Now().AddDate(-3, 0, 0).Truncate(time.Second),
+		NotAfter: time.Now().AddDate(900, 0, 0).Truncate(time.Second), PublicKey: ecdhKey.PublicKey().Bytes(), IsCA: true, Curve: nebula.Curve_P256}}
+	if err := e.nebCA.Sign(nebula.Curve_P256, ecdhKey.Bytes()); err != nil {
+		panic(err)
+	}
+	if e.nebPEM, err = e.nebCA.MarshalToPEM(); err != nil {
+		panic(err)
+	}
 	env = e
 	return e
 }
@@ -151,7 +180,7 @@ func (k *RenewCase) authority() (*authority.Authority, error) {
 		Address:  ":443",
 		DNSNames: []string{"ca.verif.test"},
 		AuthorityConfig: &config.AuthConfig{
-			Provisioners: provisioner.List{jp, xp},
+			Provisioners: provisioner.List{jp, xp, &provisioner.Nebula{Name: "nebula", Type: "Nebula", Roots: e.nebPEM, Claims: k.provClaims()}},
 			Backdate:     &provisioner.Duration{Duration: time.Duration(k.Backdate)},
 			Claims:       k.A.claims(),
 		},
@@ -175,6 +204,9 @@ func (k *RenewCase) token(aud, sub string, sshOpts *provisioner.SignSSHOptions, 
 	if k.Prov == "x5c" {
 		aud += "#x5c/x5c" // the fragment selects the provisioner (X5C.Init: Audiences.WithFragment)
 	}
+	if k.Prov == "nebula" {
+		aud += "#nebula/nebula"
+	}
 	cl := tokenClaims{Claims: jose.Claims{ID: fmt.Sprintf("jti-%d-%d", now.UnixNano(), n), Subject: sub, Issuer: k.Prov,
 		NotBefore: jose.NewNumericDate(now.Add(-30 * time.Second)), Expiry: jose.NewNumericDate(now.Add(5 * time.Minute)),
 		Audience: []string{aud}}}
@@ -185,7 +217,33 @@ func (k *RenewCase) token(aud, sub string, sshOpts *provisioner.SignSSHOptions, 
 	}
 	var sig jose.Signer
 	var err error
-	if k.Prov == "x5c" {
+	if k.Prov == "nebula" {
+		// the credential is a Nebula host certificate with the generated window, the token is signed with its key
+		key := mustKey()
+		ek, err := key.ECDH()
+		if err != nil {
+			return "", err
+		}
+		caKey, _ := e.nebKey.ECDH()
+		issuer, err := e.nebCA.Sha256Sum()
+		if err != nil {
+			return "", err
+		}
+		ip, ipNet, _ := net.ParseCIDR("10.1.0.7/16")
+		ipNet.IP = ip.To4()
+		nc := &nebula.NebulaCertificate{Details: nebula.NebulaCertificateDetails{Name: sub, Ips: []*net.IPNet{ipNet}, Subnets: []*net.IPNet{},
+			Groups: []string{}, NotBefore: lnb, NotAfter: lna, PublicKey: ek.PublicKey().Bytes(), IsCA: false, Issuer: issuer,
+			InvertedGroups: map[string]struct{}{}, Curve: nebula.Curve_P256}}
+		if err := nc.Sign(nebula.Curve_P256, caKey.Bytes()); err != nil {
+			return "", err
+		}
+		raw, err := nc.Marshal()
+		if err != nil {
+			return "", err
+		}
+		sig, err = jose.NewSigner(jose.SigningKey{Algorithm: jose.ES256, Key: key},
+			new(jose.SignerOptions).WithType("JWT").WithHeader(provisioner.NebulaCertHeader, base64.StdEncoding.EncodeToString(raw)))
+	} else if k.Prov == "x5c" {
 		key := mustKey()
 		leafTpl := &x509.Certificate{Subject: pkix.Name{CommonName: "credential"}, NotBefore: lnb, NotAfter: lna,
 			KeyUsage: x509.KeyUsageDigitalSignature, ExtKeyUsage: []x509.ExtKeyUsage{x509.ExtKeyUsageClientAuth}}
@@ -232,7 +290,7 @@ func (k *RenewCase) runAll() (out [][2]string) {
 	defer restore()
 	lnb, lna := k.LNB.at(base).Truncate(time.Second), k.LNA.at(base).Truncate(time.Second)
 	mode := "def"
-	if k.Prov == "x5c" {
+	if k.Prov == "x5c" || k.Prov == "nebula" {
 		mode = "lim"
 		if !lnb.Before(base.Add(-time.Second)) || !lna.After(base.Add(2*time.Second)) {
 			return nil // the credential itself would not verify: authentication, not C06
@@ -240,6 +298,8 @@ func (k *RenewCase) runAll() (out [][2]string) {
 	}
 	ctx := context.Background()
 	switch k.Kind {
+	case "sshext":
+		return k.runExt(ctx, a, cl, g, base)
 	case "x509":
 		snb, snbS := k.SNB.build(base)
 		sna, snaS := k.SNA.build(base)
@@ -369,13 +429,128 @@ func (k *RenewCase) runAll() (out [][2]string) {
 	return out
 }
 
+// runExt: renewal gate (real DefaultAuthorizeSSHRenew on a real Controller) and, when it passes, the real
+// Authority.RenewSSH and RekeySSH on a certificate with arbitrary bounds signed by the CA's SSH key.
+func (k *RenewCase) runExt(ctx context.Context, a *authority.Authority, cl *provisioner.Claimer, g Full, base time.Time) (out [][2]string) {
+	e := getEnv()
+	signer, err := ssh.NewSignerFromSigner(e.sshHost)
+	if err != nil {
+		return nil
+	}
+	va, vb := k.EVA.at(base), k.EVB.at(base)
+	old := &ssh.Certificate{Key: e.sshPub2, Serial: 7, CertType: ssh.HostCert, KeyId: "ext", ValidPrincipals: []string{"ext.verif.test"},
+		ValidAfter: va, ValidBefore: vb, Nonce: []byte{1}}
+	if err := old.SignCert(rand.Reader, signer); err != nil {
+		return nil
+	}
+	f := false
+	claims := &provisioner.Claims{AllowRenewalAfterExpiry: &k.AllowExpired, DisableRenewal: &f}
+	ctl, err := provisioner.NewController(&provisioner.SSHPOP{Name: "sshpop", Type: "SSHPOP"}, claims, provisioner.Config{Claims: g.claims()}, nil)
+	if err != nil {
+		return nil
+	}
+	var t0 time.Time
+	var gateErr error
+	crashed := false
+	for try := 0; ; try++ {
+		t0 = time.Now()
+		func() {
+			defer func() {
+				if r := recover(); r != nil {
+					crashed = true
+				}
+			}()
+			gateErr = provisioner.DefaultAuthorizeSSHRenew(ctx, ctl, old)
+		}()
+		if t1 := time.Now(); t1.Unix() != t0.Unix() && try < 5 {
+			continue
+		}
+		break
+	}
+	for _, op := range []string{"renew", "rekey"} {
+		t0r := time.Now()
+		line := fmt.Sprintf("sshgate op=%s unow=%d anow=%s pnow=%s g=%s p=nil bd=%d allow=%s ova=%d ovb=%d ct=2", op, t0.Unix(), timeS(t0r), timeS(base), g, k.Backdate, c.B(k.AllowExpired), va, vb)
+		switch {
+		case crashed:
+			out = append(out, [2]string{line, "gate=crash"})
+			continue
+		case gateErr != nil:
+			out = append(out, [2]string{line, "gate=0"})
+			continue
+		}
+		var nc *ssh.Certificate
+		res := func() (res string) {
+			defer func() {
+				if r := recover(); r != nil {
+					res = "crash"
+				}
+			}()
+			var err error
+			if op == "renew" {
+				nc, err = a.RenewSSH(ctx, old)
+			} else {
+				nc, err = a.RekeySSH(ctx, old, e.sshPub2, provisioner.VerifSSHCertValidityValidator(cl), provisioner.VerifSSHCertDefaultValidator())
+			}
+			if err != nil {
+				return "rej"
+			}
+			return "ok"
+		}()
+		t1r := time.Now()
+		if res == "ok" {
+			lo := uint64(t0r.Add(-time.Duration(k.Backdate)).Unix())
+			hi := uint64(t1r.Add(-time.Duration(k.Backdate)).Unix())
+			off := "0"
+			if nc.ValidAfter < lo || nc.ValidAfter > hi {
+				off = fmt.Sprint(int64(nc.ValidAfter) - int64(lo))
+			}
+			res = fmt.Sprintf("ok d=%d vaoff=%s", nc.ValidBefore-nc.ValidAfter, off)
+		}
+		out = append(out, [2]string{line, "gate=1 " + res})
+	}
+	return out
+}
+
+func genExt(r *c.Rng) *Case {
+	k := &RenewCase{Kind: "sshext", Prov: "jwk", CType: 2, Backdate: c.Pick(r, backdates), AllowExpired: r.Chance(1, 3)}
+	edge := []uint64{0, 1, 1<<63 - 1, 1 << 63, 1<<64 - 1, 1<<64 - 2, 253402300799}
+	rel := func(offs []int64) U { return U{Rel: true, Off: c.Pick(r, offs)} }
+	switch r.Intn(6) {
+	case 0:
+		k.EVA = U{Abs: c.Pick(r, edge)}
+	default:
+		k.EVA = rel([]int64{0, -1, 1, -60, -3600, -86400, 60, 3600, -30 * 86400})
+	}
+	switch r.Intn(8) {
+	case 0, 1:
+		k.EVB = U{Abs: c.Pick(r, edge)}
+	case 2: // lifetimes around MaxInt64/10⁹ s, where the nanosecond product starts to wrap
+		va := k.EVA
+		if va.Rel {
+			k.EVB = U{Rel: true, Off: va.Off + c.Pick(r, []int64{9223372036, 9223372037, 9223372100, 18446744073, 18446744074, 18446744374, 9223372036 - 1})}
+		} else {
+			k.EVB = U{Abs: va.Abs + 9223372037}
+		}
+	default:
+		k.EVB = rel([]int64{0, -1, 1, 60, 300, 3600, 57600, 86400, 86460, 30 * 86400, -60, 2})
+	}
+	return &Case{Renew: k}
+}
+
 func genE2E(r *c.Rng) *Case {
+	if r.Chance(1, 8) {
+		return genExt(r)
+	}
 	k := &RenewCase{Kind: "x509", Prov: "jwk", CType: uint32(1 + r.Intn(2)), Renew: r.Chance(1, 2)}
 	if r.Chance(1, 2) {
 		k.Kind = "ssh"
 	}
-	if r.Chance(2, 5) {
+	switch r.Intn(10) {
+	case 0, 1, 2:
 		k.Prov = "x5c"
+	case 3, 4, 5:
+		k.Prov = "nebula"
+		k.CType = 2 // Nebula issues SSH host certificates only
 	}
 	// claims that initialise (consistent), at authority and provisioner level
 	k.A = genClaimSet(r, false)
@@ -481,6 +656,12 @@ func cornerE2E() []*Case {
 		{Renew: &RenewCase{Kind: "x509", Prov: "x5c", Backdate: min, Renew: true, LNB: T{Rel: true, Off: -hr}, LNA: T{Rel: true, Off: hr}}},
 		{Renew: &RenewCase{Kind: "ssh", Prov: "jwk", CType: 1, Backdate: min, Renew: true}},
 		{Renew: &RenewCase{Kind: "ssh", Prov: "x5c", CType: 2, Backdate: min, Renew: true, LNB: T{Rel: true, Off: -hr}, LNA: T{Rel: true, Off: hr}}},
+		{Renew: &RenewCase{Kind: "x509", Prov: "nebula", Backdate: min, Renew: true, LNB: T{Rel: true, Off: -hr}, LNA: T{Rel: true, Off: hr}}},
+		{Renew: &RenewCase{Kind: "ssh", Prov: "nebula", CType: 2, Backdate: min, Renew: true, LNB: T{Rel: true, Off: -hr}, LNA: T{Rel: true, Off: hr}}},
+		// certificates signed with the CA key outside the sign chain: "forever", 292 years
+		{Renew: &RenewCase{Kind: "sshext", Prov: "jwk", CType: 2, Backdate: min, EVA: U{Abs: 1}, EVB: U{Abs: 1<<64 - 1}}},
+		{Renew: &RenewCase{Kind: "sshext", Prov: "jwk", CType: 2, Backdate: min, EVA: U{Rel: true, Off: -200}, EVB: U{Rel: true, Off: -200 + 9223372100}}},
+		{Renew: &RenewCase{Kind: "sshext", Prov: "jwk", CType: 2, Backdate: min, EVA: U{Rel: true, Off: -200}, EVB: U{Rel: true, Off: 3400}}},
 		// X.509 overflow family through the real endpoints (must be refused)
 		{Renew: &RenewCase{Kind: "x509", Prov: "jwk", Backdate: min, SNB: TD{Kind: 1, T: T{Rel: true}}, SNA: TD{Kind: 1, T: T{Rel: true, Sec: 18446744074 + 3600}}}},
 		{Renew: &RenewCase{Kind: "x509", Prov: "jwk", Backdate: min, SNB: TD{Kind: 1, T: T{Rel: true}}, SNA: TD{Kind: 1, T: T{Rel: true, Sec: 3*18446744074 + 3600}}}},
